@@ -226,8 +226,47 @@ static int c04_getdigest(Buf *b, HSess *s, uint8_t out[32]) {
     if (r.rc != 0 || r.len < 12 + 32 || g16(r.p + 10) != 32) { tr("pgd sh=%u rc=%u", s->h, r.rc); return -1; }
     memcpy(out, r.p + 12, 32); tr_begin("pgd sh=%u rc=0", s->h); trhex("digest", out, 32); tr_end(); return 0;
 }
-enum { BR_W, BR_R, BR_C, BR_D };
-typedef struct { uint32_t idx; char auth[8]; uint8_t name[34]; int nl; uint8_t d[4][32]; uint8_t P[32]; uint8_t data[16]; int exists; } PolNv;
+
+/* ---- PCR-bound branch: PolicyPCR over sha256:{16,20}. PCR 16 belongs to the group whose updates do not move the PCR update
+   counter, PCR 20 (extend at locality 1-3, reset at 2-4) does: a change after PolicyPCR is noticed only through the counter ---- */
+static const uint8_t C04_PCRSEL[10] = {0, 0, 0, 1, 0, 0x0B, 3, 0, 0, 0x11};
+static int g_c04_pcr_dirty;
+/* PCR_Read of the selection: logs values and the update counter for the model */
+static void c04_pcrv(Buf *b) {
+    cmd_begin(b, ST_NO_SESSIONS, CC_PCR_Read); b_bytes(b, C04_PCRSEL, 10); Rsp r = run(b);
+    if (r.rc != 0) { tr("pcrv rc=%u", r.rc); return; }
+    Rd rd = { r.p, r.len, 10, 0 }; uint32_t ctr = r_u32(&rd); uint32_t cnt = r_u32(&rd); for (uint32_t i = 0; i < cnt; i++) { r_u16(&rd); uint8_t sz = r_u8(&rd); r_bytes(&rd, sz); }
+    uint32_t nd = r_u32(&rd); uint8_t vals[64]; int vl = 0; for (uint32_t i = 0; i < nd && i < 2; i++) { uint16_t l; const uint8_t *d = r_2b(&rd, &l); if (l == 32) { memcpy(vals + vl, d, 32); vl += 32; } }
+    tr_begin("pcrv rc=0 ctr=%u", ctr); trhex("vals", vals, vl); tr_end();
+}
+static void c04_pcr_extend(Buf *b, int pcr) {
+    int loc = g_locality; if (pcr == 20) g_locality = 2;
+    uint8_t d[32]; for (int i = 0; i < 32; i++) d[i] = rnd(256);
+    cmd_begin(b, ST_SESSIONS, CC_PCR_Extend); b_u32(b, pcr); auth_pw(b, "", 0); b_u32(b, 1); b_u16(b, ALG_SHA256); b_bytes(b, d, 32); Rsp r = run(b);
+    g_locality = loc; tr("pcrx pcr=%d rc=%u", pcr, r.rc); g_c04_pcr_dirty = 1; c04_pcrv(b);
+}
+static void c04_pcr_clean(Buf *b) {
+    if (g_c04_pcr_dirty) {
+        cmd_begin(b, ST_SESSIONS, CC_PCR_Reset); b_u32(b, 16); auth_pw(b, "", 0); run(b);
+        int loc = g_locality; g_locality = 2; cmd_begin(b, ST_SESSIONS, CC_PCR_Reset); b_u32(b, 20); auth_pw(b, "", 0); run(b); g_locality = loc;
+        g_c04_pcr_dirty = 0;
+    }
+    c04_pcrv(b);
+}
+/* PolicyPCR; given: 0 no digest, 1 the digest of the current values, 2 a wrong digest */
+static uint32_t c04_polpcr(Buf *b, HSess *s, int given) {
+    uint8_t dg[32]; int gl = 0;
+    if (given) { cmd_begin(b, ST_NO_SESSIONS, CC_PCR_Read); b_bytes(b, C04_PCRSEL, 10); Rsp r = run(b);
+        if (r.rc == 0) { Rd rd = { r.p, r.len, 10, 0 }; r_u32(&rd); uint32_t cnt = r_u32(&rd); for (uint32_t i = 0; i < cnt; i++) { r_u16(&rd); uint8_t sz = r_u8(&rd); r_bytes(&rd, sz); }
+            uint32_t nd = r_u32(&rd); uint8_t vals[64]; int vl = 0; for (uint32_t i = 0; i < nd && i < 2; i++) { uint16_t l; const uint8_t *d = r_2b(&rd, &l); if (l == 32) { memcpy(vals + vl, d, 32); vl += 32; } }
+            unsigned int dl; EVP_Digest(vals, vl, dg, &dl, EVP_sha256(), NULL); gl = 32; if (given == 2) dg[rnd(32)] ^= 1 << rnd(8); } }
+    cmd_begin(b, ST_NO_SESSIONS, CC_PolicyPCR); b_u32(b, s->h); b_2b(b, dg, gl); b_bytes(b, C04_PCRSEL, 10);
+    Rsp r = run(b);
+    tr_begin("pol sh=%u cc=%x code=0 rc=%u", s->h, CC_PolicyPCR, r.rc); trhex("sel", C04_PCRSEL, 10); trhex("given", dg, gl); tr_end();
+    return r.rc;
+}
+enum { BR_W, BR_R, BR_C, BR_D, BR_P, BR_N };
+typedef struct { uint32_t idx; char auth[8]; uint8_t name[34]; int nl; uint8_t d[BR_N][32]; uint8_t P[32]; uint8_t data[16]; int exists; } PolNv;
 
 static void c04_nvname(Buf *b, PolNv *n) {
     cmd_begin(b, ST_NO_SESSIONS, CC_NV_ReadPublic); b_u32(b, n->idx); Rsp r = run(b);
@@ -261,11 +300,19 @@ static void c04_branch(Buf *b, HSess *s, PolNv *n, int br, int dev) {
     case BR_W: c04_pol(b, s, CC_PolicyCommandCode, code, NULL, 0); if (dev != 2) c04_pol(b, s, dev == 5 ? CC_PolicyPassword : CC_PolicyAuthValue, 0, NULL, 0); break;
     case BR_R: c04_pol(b, s, dev == 5 ? CC_PolicyAuthValue : CC_PolicyPassword, 0, NULL, 0); break;
     case BR_C: c04_pol(b, s, CC_PolicyCommandCode, code, NULL, 0); break;
+    case BR_P: /* dev 1: a PCR changed before PolicyPCR; 2: wrong digest supplied; 5: PCR 20 changes after PolicyPCR (counter moves);
+                  6 (generic, below) adds a command code; 4: PCR 16 changes after PolicyPCR (counter does not move) */
+        c04_pcr_clean(b);
+        if (dev == 1) c04_pcr_extend(b, chance(50) ? 16 : 20);
+        c04_polpcr(b, s, dev == 2 ? 2 : rnd(2));
+        if (dev == 5) { c04_pcr_extend(b, 20); if (chance(40)) c04_polpcr(b, s, 0); }
+        if (dev == 4) c04_pcr_extend(b, 16);
+        break;
     default:   if (dev != 2) c04_pol(b, s, CC_PolicyAuthValue, 0, NULL, 0); c04_pol(b, s, CC_PolicyCommandCode, code, NULL, 0); break;
     }
     if (dev == 6) c04_pol(b, s, CC_PolicyCommandCode, CC_NV_Read, NULL, 0);   /* second, conflicting command code: refused */
-    if (dev != 3) c04_pol(b, s, CC_PolicyOR, 0, (const uint8_t (*)[32])n->d, 4); /* dev 3: the OR step is left out */
-    if (dev == 4) c04_pol(b, s, CC_PolicyAuthValue, 0, NULL, 0);                /* an extra step after the OR */
+    if (dev != 3) c04_pol(b, s, CC_PolicyOR, 0, (const uint8_t (*)[32])n->d, BR_N); /* dev 3: the OR step is left out */
+    if (dev == 4 && br != BR_P) c04_pol(b, s, CC_PolicyAuthValue, 0, NULL, 0);  /* an extra step after the OR */
     if (chance(30)) { uint8_t dg[32]; c04_getdigest(b, s, dg); }
 }
 static void c04_policy_rounds(Buf *b, int rounds) {
@@ -274,15 +321,16 @@ static void c04_policy_rounds(Buf *b, int rounds) {
     /* the four branch digests and the OR over them, computed by the TPM in a trial session and recomputed by the model */
     if (c04_start(b, &t, RH_NULL, "", 3) != 0) return;
     t.is_policy = 1;
-    for (int br = 0; br < 4; br++) {
+    for (int br = 0; br < BR_N; br++) {
         c04_pol(b, &t, CC_PolicyRestart, 0, NULL, 0);
         if (br == BR_W) { c04_pol(b, &t, CC_PolicyCommandCode, CC_NV_Write, NULL, 0); c04_pol(b, &t, CC_PolicyAuthValue, 0, NULL, 0); }
         else if (br == BR_R) c04_pol(b, &t, CC_PolicyPassword, 0, NULL, 0);
         else if (br == BR_C) c04_pol(b, &t, CC_PolicyCommandCode, CC_NV_ChangeAuth, NULL, 0);
+        else if (br == BR_P) { c04_pcr_clean(b); c04_polpcr(b, &t, 0); }
         else { c04_pol(b, &t, CC_PolicyAuthValue, 0, NULL, 0); c04_pol(b, &t, CC_PolicyCommandCode, CC_NV_UndefineSpaceSpecial, NULL, 0); }
         if (c04_getdigest(b, &t, n.d[br]) != 0) return;
     }
-    c04_pol(b, &t, CC_PolicyRestart, 0, NULL, 0); c04_pol(b, &t, CC_PolicyOR, 0, (const uint8_t (*)[32])n.d, 4);
+    c04_pol(b, &t, CC_PolicyRestart, 0, NULL, 0); c04_pol(b, &t, CC_PolicyOR, 0, (const uint8_t (*)[32])n.d, BR_N);
     if (c04_getdigest(b, &t, n.P) != 0) return;
     cmd_begin(b, ST_NO_SESSIONS, CC_FlushContext); b_u32(b, t.h); run(b); tr("sflush h=%u", t.h);
     uint8_t platname[4]; be32buf(platname, RH_PLATFORM);
@@ -294,10 +342,10 @@ static void c04_policy_rounds(Buf *b, int rounds) {
     HSess hs; int have_hs = c04_start(b, &hs, RH_NULL, "", 0) == 0;
     for (int i = 0; i < rounds; i++) {
         if (!n.exists) { c04_poldefine(b, &n, &ps); if (!n.exists) return; }
-        int br = chance(8) ? BR_D : rnd(3);
+        int br = chance(8) ? BR_D : chance(25) ? BR_P : rnd(3);
         int dev = chance(55) ? 0 : 1 + rnd(6);
         int corrupt = chance(70) ? K_NONE : 1 + rnd(K_NCOUNT - 1);
-        int usecmd = chance(85) ? br : rnd(4);               /* sometimes the session built for one command is used for another */
+        int usecmd = chance(85) ? (br == BR_P ? BR_R : br) : rnd(4);               /* sometimes the session built for one command is used for another */
         c04_branch(b, &ps, &n, br, dev);
         int mode = ps.needPw ? M_PW_FIELD : ps.needAuth ? M_HMAC_AUTH : M_EMPTY;
         if (chance(6)) mode = rnd(5) == M_RS_PW ? M_EMPTY : rnd(3);   /* the wrong kind of proof for the session's state */
